@@ -108,6 +108,9 @@ def gen_requests(rng, ent):
         if kind == "invstmt":
             r.update(dtasof=gen_dt(rng), incoo=rng.choice([True, False]), incpos=rng.choice([True, False]), incbal=rng.choice([True, False]))
         out.append(r)
+        if rng.random() < 0.2:
+            # a multiset: the very same request once more (right away or later) - still one wrapper each, each with its own TRNUID
+            out.insert(rng.randint(0, len(out)), dict(r))
     return out
 
 
